@@ -18,6 +18,14 @@ class AORun:
   def chart(self):
     sp = self.cfg.get("selfposts", {})       # {"A": [["post_fifo","B"]], ...}
     eff = [[1, sg, lst] for sg, lst in sp.items()]
+    if self.cfg.get("nested"):
+      # a composite state s1 whose initial transition leads into s2; A moves between its substates s2 and s3, B and C are hooks:
+      # start_at(s1) settles in s2, so "the state passed to start_at" and "the current state" differ
+      return {"n": 3, "par": [0, 1, 1], "init": [2, 0, 0], "sigs": ["A", "B", "C"],
+              "react": [[["none", 0], ["none", 0], ["none", 0]], [["tran", 3], ["hook", 0], ["hook", 0]], [["tran", 2], ["hook", 0], ["hook", 0]]],
+              "eff": [[2, sg, lst] for sg, lst in sp.items()] + [[3, sg, lst] for sg, lst in sp.items()], "bad": [], "build": "dyn", "reg": [],
+              "xstyle": ["h"] * 3, "estyle": ["h"] * 3, "istyle": ["h"] * 3, "spied": bool(self.cfg.get("spied", False)), "host": "ao",
+              "cap": self.cfg["cap"]}
     if self.cfg.get("toggle"):
       # two sibling states, A toggles between them (a trace record per A), B and C are handled internally (hooks)
       return {"n": 2, "par": [0, 0], "init": [0, 0], "sigs": ["A", "B", "C"],
@@ -38,7 +46,10 @@ class AORun:
     with shims.installed(sched) as ma:
       try:
         mh.HsmWithQueues.QUEUE_SIZE = cfg["cap"]
-        script = chartgen.Script(self.chart(), limit=10**9)
+        ch = self.chart()
+        if cfg.get("wrapped"):
+          ch["hstyle"] = "wrapped"          # un-instrumented state functions that carry a decorator of the user's own
+        script = chartgen.Script(ch, limit=10**9)
         script.build_dyn(bool(cfg.get("spied", False)))
         self.script = script
         me = self
@@ -73,7 +84,9 @@ class AORun:
             return "tm%d" % sched.ntimer
           return None
         sched.name_for_thread = name_for_thread
-        ao = ma.ActiveObject(name="ao", instrumented=bool(cfg.get("spied", False)))
+        # (an anonymous active object derives a name for itself from its start state)
+        ao = (ma.ActiveObject(instrumented=bool(cfg.get("spied", False))) if cfg.get("anon")
+              else ma.ActiveObject(name="ao", instrumented=bool(cfg.get("spied", False))))
         self.ao = ao
         if cfg.get("live"):
           # live spy / live trace on: every line goes through the writer thread's queue while posters keep posting
@@ -93,7 +106,15 @@ class AORun:
           sched.spawn("starter", lambda: ao.start_at(script.fn[1]))
           warm = 0
         else:
-          ao.start_at(script.fn[1])
+          try:
+            ao.start_at(script.fn[1])
+          except Exception as ex:  # noqa   start_at itself failed: an execution that ends in an error before anything was posted
+            import traceback as _tb
+            res.update({"outcome": "error", "dq": [], "tokens": 0, "dispatched": [], "errors": [("start_at", type(ex).__name__, _tb.format_exc()[-1500:])],
+                        "blocked": [], "steps": 0, "ops": [], "rtc_overlap": False, "stopped": False, "schedule": [], "posters_done": False})
+            return res
+          # C23: what the chart says about itself once start_at has returned (nothing has been posted yet)
+          me.after_start = me.self_description()
           sched.run()                       # warm-up: every service thread reaches its blocking point
           warm = len(sched.log)
           self.warm_choices = len(sched.choices)
@@ -112,6 +133,13 @@ class AORun:
         if left:
           res["leaked_threads"] = left
     return res
+
+  def self_description(self):
+    ao, sc = self.ao, self.script
+    try:
+      return [str(getattr(ao, "state_name", "")), sc.index_of(getattr(ao, "state_fn", None), ao), sc.index_of(getattr(ao.state, "fun", None), ao)]
+    except Exception as ex:  # noqa
+      return ["raised:" + type(ex).__name__, -3, -3]
 
   def poster(self, name, prog):
     for k, kind in enumerate(prog):
@@ -144,7 +172,13 @@ class AORun:
       live["live_trc"] = [chartgen.parse_trace_line(ln) for ln in self.live_trc_lines]
       live["calls"] = [[c[0], c[1], c[2]] for c in self.script.log if c[0] != "REFLECTION_SIGNAL"]
       live["disp_sigs"] = [c[0] for c in self.script.log if c[0] in ("A", "B", "C")]
+    # the chart's description of itself (state_name, state_fn, current state) after start_at and at the end, and - from the handlers'
+    # own call log - how many times A was answered with a transition
+    names = {"on": bool(self.cfg.get("names")), "nested": bool(self.cfg.get("nested")), "toggle": bool(self.cfg.get("toggle")),
+             "early": not hasattr(self, "after_start"), "after": getattr(self, "after_start", ["", -1, -1]), "final": self.self_description(),
+             "a_disp": sum(1 for c in self.script.log if c[0] == "A" and c[2] == "TRAN")}
     return {"outcome": outcome, "dq": dq, "tokens": ao.locking_deque.locking_queue._size(), "dispatched": list(self.dispatched), "liveout": live,
+            "names": names,
             "errors": sched.errors, "blocked": sched.blocked(), "steps": sched.steps, "ops": ops,
             "rtc_overlap": self.rtc_overlap, "stopped": bool(self.cfg.get("stop")),
             "schedule": [c[0] for c in sched.choices][getattr(self, "warm_choices", 0):],     # the choices after the warm-up: what --replay imposes
@@ -253,7 +287,8 @@ def validate(results, cap):
       f.write(json.dumps({"tid": tid, "ops": r["ops"], "end": {
         "outcome": r["outcome"], "posters_done": r["posters_done"], "stopped": r["stopped"],
         "dispatched": r["dispatched"], "rtc_overlap": r["rtc_overlap"], "liveout": r.get("liveout", {"live": False, "toggle": False,
-        "live_spy_calls": [], "live_trc": [], "calls": [], "disp_sigs": []})}}) + "\n")
+        "live_spy_calls": [], "live_trc": [], "calls": [], "disp_sigs": []}),
+        "names": r.get("names", {"on": False, "nested": False, "toggle": False, "early": True, "after": ["", -1, -1], "final": ["", -1, -1], "a_disp": 0})}}) + "\n")
   t = tlc.run("AOTrace.tla", AO_CFG % cap, workers="auto", env={"TRACE_FILE": path}, timeout=1800)
   os.unlink(path)
   if t.violated:
